@@ -457,6 +457,7 @@ def run(F, rep):
         want = {"kmer_length": [0, 1, 2, 3], "min_match_len": [4, 5, 6, 7], "segment_size": [12, 13, 14, 15]}
         rep.ob("C02-PARAMS", "reader takes k, min_match_len and segment size from bytes 0-3, 4-7, 12-15 of the params part (bytes 8-11 hold the cardinality)", offs == want, detail=str(offs),
                site="%s:%d" % (lp.file, lp.line_lo), key="C02-PARAMS | reader layout")
+    params_len_rule(F, rep, "C02-PARAMS", 4 * len(T["params_layout"]))
     # metadata batch of 50 samples in finalize
     fin = F.funcs.get(AC + "StreamingQueueCompressor::finalize")
     if fin:
@@ -607,3 +608,50 @@ def _can_exit_without(g, start, must, f):
             return True
         st.extend(g.succ[x])
     return False
+
+
+def params_len_rule(F, rep, rule, width=16):
+    """The params part ragc writes is exactly `width` bytes (4 LE u32).  Every read of a byte of it in load_params must be
+    reachable for a part of that length: the conditions on the part's length that dominate the read are evaluated with
+    len = width (`len >= 16` holds, `len > 16` does not - and the reader would fall back to a default the writer did not use)."""
+    from mirutil import dominating_conds
+    lp = F.funcs.get("ragc_core::decompressor::Decompressor::load_params")
+    if not rep.floor(rule, 1 if lp else 0, 1, "load_params"):
+        return
+    ex = Exprs(lp)
+
+    def ev(e):
+        if not isinstance(e, tuple):
+            return None
+        if e[0] == "const" and isinstance(e[1], int):
+            return e[1]
+        if e[0] == "call" and re.search(r"(Vec::<T(, A)?>|slice::<impl \[T\]>)::len$", e[1]):
+            return width
+        if e[0] == "bin":
+            a, b = ev(e[2]), ev(e[3])
+            if a is None or b is None:
+                return None
+            return {"Le": int(a <= b), "Lt": int(a < b), "Ge": int(a >= b), "Gt": int(a > b), "Eq": int(a == b), "Ne": int(a != b),
+                    "Add": a + b, "Sub": a - b}.get(e[1])
+        return None
+    n = 0
+    for bi, t in lp.calls():
+        if t.get("indirect") or not t["callee"].endswith("from_le_bytes"):
+            continue
+        idx = sorted(_index_const(x) for x in walk(ex.call(t)) if _index_const(x) is not None)
+        if not idx or idx[-1] >= width:
+            continue
+        n += 1
+        blocked = []
+        for c in dominating_conds(lp, bi, ex):
+            e, how, vals = c[0], c[1], c[2]
+            v = ev(e)
+            if v is None:
+                continue
+            holds = (v in vals) if how == "is" else (v not in vals)
+            if not holds:
+                blocked.append("%s is %s for a part of %d bytes" % (fmt(e)[:60].replace(fmt(e)[fmt(e).find("Vec::len("):], "len") if "Vec::len(" in fmt(e) else fmt(e)[:60], bool(v), width))
+        rep.ob(rule, "bytes %d..%d of the params part are read from the %d-byte part the writer emits" % (idx[0], idx[-1], width), not blocked,
+               detail="; ".join(blocked) if blocked else "every length condition on the way holds for len = %d" % width, site=site_of(lp, t),
+               key="%s | load_params | bytes %d-%d read for the written length" % (rule, idx[0], idx[-1]))
+    rep.floor(rule, n, 4, "little-endian words read from the params part")
